@@ -62,7 +62,11 @@ func (m *SubDomainMatcher[T]) Match(s string) (T, bool) {
 }
 
 func (m *SubDomainMatcher[T]) Len() int {
-	return m.root.len()
+	l := m.root.len()
+	if m.root.hasValue() { // the empty pattern ("domain:") is stored at the root
+		l++
+	}
+	return l
 }
 
 func (m *SubDomainMatcher[T]) Add(s string, v T) error {
